@@ -51,6 +51,7 @@ pub const PL_SCI: u8 = 2; // d.ddd
 pub const PL_FRAC: u8 = 4; // .ddd
 pub const PL_FRACZ: u8 = 8; // .000ddd (3 and 20 leading zeros)
 pub const PL_MID: u8 = 16; // split in the middle
+pub const PL_POS: u8 = 32; // positional: no exponent at all (what `{}` prints): ddd000 / dd.ddd / .000ddd
 pub const PL_ALL: u8 = 31;
 
 pub fn emit_placements(
@@ -92,6 +93,25 @@ pub fn emit_placements(
             if let Some(e) = clamp_i32(exp10 + n as i64 + z as i64) {
                 emit(&Case { int: b"", frac: &f, exp: e, fam, fmts, expect });
             }
+        }
+    }
+    if placements & PL_POS != 0 && !ends0 {
+        if exp10 >= 0 {
+            if exp10 <= 400 {
+                let mut v = digits.to_vec();
+                v.resize(n + exp10 as usize, b'0');
+                emit(&Case { int: &v, frac: b"", exp: 0, fam, fmts, expect });
+            }
+        } else if (-exp10) as usize >= n {
+            let z = (-exp10) as usize - n;
+            if z <= 1200 {
+                let mut f = vec![b'0'; z];
+                f.extend_from_slice(digits);
+                emit(&Case { int: b"", frac: &f, exp: 0, fam, fmts, expect });
+            }
+        } else {
+            let p = n - (-exp10) as usize;
+            emit(&Case { int: &digits[..p], frac: &digits[p..], exp: 0, fam, fmts, expect });
         }
     }
     if placements & PL_MID != 0 && n > 2 && !ends0 {
